@@ -37,7 +37,7 @@ def _run_z3(args):
         reason = s.reason_unknown() if r == z3.unknown else ""
         return (str(r), model, round(time.time() - t0, 3), reason)
     except Exception as ex:   # pragma: no cover
-        return ("unknown", None, round(time.time() - t0, 3), f"z3 error: {ex}")
+        return ("error", None, round(time.time() - t0, 3), f"z3 error: {ex}")
 
 
 def _run_cvc5(args):
@@ -95,6 +95,8 @@ def discharge(obligations, timeout_ms=10000, cross_check=False):
         for (i, smt2, to, wm), (r, model, t, reason) in zip(jobs, outs):
             results[i] = {"verdict": r, "backend": "z3", "time_s": t, "model": model,
                           "reason": reason}
+            if r == "error":
+                raise RuntimeError(f"solver could not read obligation {obligations[i].key}: {reason}")
             if r == "unknown" and obligations[i].kind != "canary":
                 retry.append((i, smt2, to))
             elif cross_check and r == "unsat" and obligations[i].kind != "canary":
